@@ -14,16 +14,18 @@ Lemma zrange_len a k : length (zrange a k) = k.
 Proof. apply zrange_length. Qed.
 
 Theorem agree_fixed_spec c :
-  0 <= c_n c -> 1 <= c_batch c -> 1 <= c_par c ->
+  0 <= c_n c -> 1 <= c_batch c -> 1 <= c_par c -> c_kind c <> KPushIn ->
   agree PCeilClip c = true -> spec_ok c = true.
 Proof.
-  intros Hn Hb Hp. unfold agree, predict, spec_ok.
+  intros Hn Hb Hp Hk. unfold agree, predict, spec_ok.
+  assert (Hf : f_of (c_kind c) = fmap_g (g_of (c_kind c))) by (destruct (c_kind c); try reflexivity; contradiction).
+  rewrite Hf.
   set (src := zrange 0 (Z.to_nat (c_n c))).
   set (p := if c_full c then 1 else c_par c).
   assert (Hp' : 1 <= p) by (subst p; destruct (c_full c); lia).
   destruct (run_job_fixed (g_of (c_kind c)) p (Z.to_nat (c_batch c)) src Hp' ltac:(lia))
     as (ins & outs & Hrun & Ho & Hi).
-  unfold fmap_g in Hrun. rewrite Hrun.
+  rewrite Hrun.
   assert (Hlen : Z.of_nat (length src) = c_n c) by (subst src; rewrite zrange_len; lia).
   intros H.
   repeat (apply andb_true_iff in H; destruct H as [H ?]).
@@ -33,7 +35,8 @@ Proof.
     match goal with Hs : zlist_eqb (concat ins) _ = true |- _ =>
       apply zlist_eqb_eq in Hs; rewrite <- Hs, Hi end. now apply zlist_eqb_eq.
   - match goal with Hs : zlistlist_eqb outs _ = true |- _ =>
-      apply zlistlist_eqb_eq in Hs; rewrite <- Hs, Ho end. now apply zlist_eqb_eq.
+      apply zlistlist_eqb_eq in Hs; rewrite <- Hs, Ho end.
+    destruct (c_kind c); try (now apply zlist_eqb_eq); contradiction.
   - match goal with Hs : Z.eqb _ (o_token c) = true |- _ =>
       apply Z.eqb_eq in Hs; rewrite <- Hs end.
     destruct (c_full c); apply Z.eqb_eq; lia.
